@@ -247,3 +247,112 @@ Proof.
   - unfold own_chain, lineage_t. fold (lineage_t (cut_ws ws c) a). fold (lineage_t ws a). unfold lineage_t at 2. rewrite Hl', Hl. rewrite tables_along_cut. reflexivity.
   - split; [intro b; apply tables_along_cut|]. split; [intros; apply wdef_all_cut|apply target_of_cut].
 Qed.
+
+(* a plain identifier the chain itself declares: same link (the `uses` loop is not reached) *)
+Lemma wdef_single_chain_cut ws c a ch id h : lookup ch id = Some h ->
+  wdef_single (cut_ws ws c) a ch (Some id) = wdef_single ws a ch (Some id).
+Proof. intro H. unfold wdef_single, wsearch. rewrite H, target_of_cut. reflexivity. Qed.
+
+(* ---------- the cut workspace is again a workspace of regular, well-named documents ---------- *)
+
+Lemma dkind_at_cut g c : dkind_at (g, cut_hdr c) = dkind_at (g, c).
+Proof. unfold dkind_at, dkind_of. cbn [fst snd]. rewrite cut_hdr_kind. reflexivity. Qed.
+
+Lemma dk_cut c : dk (cut_hdr c) = dk c.
+Proof. apply dkind_at_cut. Qed.
+
+Lemma silent_top_cut_tree t : silent_top t -> silent_top (cut_tree t).
+Proof. unfold silent_top, silent, top, dkind_at, dkind_of. cbn [fst snd]. destruct t. exact (fun H => H). Qed.
+
+Lemma quiet_cut t c : quiet t c -> quiet (cut_tree t) (cut_hdr c).
+Proof. unfold quiet. rewrite below_cut. exact (fun H => H). Qed.
+
+Lemma pre_ok_cut t c : pre_ok t c -> pre_ok (cut_tree t) (cut_hdr c).
+Proof. intros [H1 H2]. split; [unfold silent_top, silent, top in *; rewrite dkind_at_cut; exact H1|apply quiet_cut; exact H2]. Qed.
+
+Lemma mid_ok_cut t c : mid_ok t c -> mid_ok (cut_tree t) (cut_hdr c).
+Proof.
+  intros [H1 H2]. split; [|apply quiet_cut; exact H2]. unfold silent_top, silent, top, is_uses, is_member, is_method in *.
+  rewrite dk_cut, dkind_at_cut. exact H1.
+Qed.
+
+Lemma rest_ok_cut t c : rest_ok t c -> rest_ok (cut_tree t) (cut_hdr c).
+Proof.
+  unfold rest_ok, quiet, silent_top, silent, top, is_method. rewrite below_cut, dk_cut, dkind_at_cut. exact (fun H => H).
+Qed.
+
+Lemma Forall_map_cut (P Q : node -> Prop) l : (forall c, P c -> Q (cut_hdr c)) -> Forall P l -> Forall Q (map cut_hdr l).
+Proof. intros H. induction 1; cbn [map]; constructor; auto. Qed.
+
+Theorem regular_cut t : regular t -> regular (cut_tree t).
+Proof.
+  intros [Ht (pre & h & mid & rest & Hch & Hpre & Hh & Hhq & Hmid & Hrest)]. split; [apply silent_top_cut_tree; exact Ht|].
+  exists (map cut_hdr pre), (cut_hdr h), (map cut_hdr mid), (map cut_hdr rest).
+  split; [destruct t; cbn [cut_tree nchildren] in *; rewrite Hch, map_app; cbn [map]; rewrite map_app; reflexivity|].
+  split; [apply (Forall_map_cut (pre_ok t)); [apply pre_ok_cut|exact Hpre]|].
+  split; [unfold is_header in *; rewrite dk_cut; exact Hh|]. split; [apply quiet_cut; exact Hhq|].
+  split; [apply (Forall_map_cut (mid_ok t)); [apply mid_ok_cut|exact Hmid]|apply (Forall_map_cut (rest_ok t)); [apply rest_ok_cut|exact Hrest]].
+Qed.
+
+Lemma find_header_cut cs : find is_header (map cut_hdr cs) = option_map cut_hdr (find is_header cs).
+Proof.
+  induction cs as [|c cs IH]; [reflexivity|]. cbn [map find]. unfold is_header at 1. rewrite dk_cut. fold (is_header c).
+  destruct (is_header c); [reflexivity|exact IH].
+Qed.
+
+Lemma e_name_cut t : e_name (entity_of_tree (cut_tree t)) = e_name (entity_of_tree t).
+Proof.
+  unfold entity_of_tree. cbn [e_name]. assert (Hc : nchildren (cut_tree t) = map cut_hdr (nchildren t)) by (destruct t; reflexivity).
+  rewrite Hc, find_header_cut. destruct (find is_header (nchildren t)); cbn [option_map]; [apply cut_hdr_ident|reflexivity].
+Qed.
+
+Lemma module_plain_cut t : module_plain t -> module_plain (cut_tree t).
+Proof.
+  intros H h Hin Hk. assert (Hc : nchildren (cut_tree t) = map cut_hdr (nchildren t)) by (destruct t; reflexivity).
+  rewrite Hc in Hin. apply in_map_iff in Hin. destruct Hin as (c & <- & Hc'). unfold is_kind in Hk. rewrite cut_hdr_kind in Hk.
+  fold (is_kind KAstClass c) in Hk. unfold cut_hdr. rewrite Hk. apply (H c Hc' Hk).
+Qed.
+
+Theorem ws_ok_cut ws : forall c, ws_ok ws -> ws_ok (cut_ws ws c).
+Proof.
+  unfold ws_ok. induction ws as [|d r IH]; intros c H; [destruct c; constructor|]. inversion H as [|? ? Hd Hr]; subst.
+  destruct c as [|c]; cbn [cut_ws]; constructor; auto.
+  destruct Hd as (H1 & H2 & H3). unfold doc_ok, ent. cbn [fst snd]. split; [apply regular_cut; exact H1|].
+  split; [rewrite e_name_cut; exact H2|apply module_plain_cut; exact H3].
+Qed.
+
+Lemma distinct_stems_cut ws : forall c, distinct_stems (cut_ws ws c) = distinct_stems ws.
+Proof.
+  induction ws as [|d r IH]; intros c; [destruct c; reflexivity|]. destruct c as [|c]; cbn [cut_ws distinct_stems fst]; [reflexivity|].
+  rewrite IH. f_equal. f_equal. clear. revert c. induction r as [|x r IH]; intro c; [destruct c; reflexivity|].
+  destruct c as [|c]; cbn [cut_ws existsb fst]; [reflexivity|]. rewrite IH. reflexivity.
+Qed.
+
+(* on a cycle: the chain of the requested document refines Scoping.scope_chain of the CUT workspace
+   (and with it every look-up and label theorem of WsTreeProofs), whenever that workspace is acyclic *)
+Theorem ws_cycle_refines ws a d k mt path : ws_ok ws -> distinct_stems ws = true ->
+  nth_error ws a = Some d -> lineage_t ws a = Ans (true, path) ->
+  nth_error (method_tables_of false (snd d)) k = Some mt ->
+  exists c pre, path = pre ++ [c] /\ ws_ok (cut_ws ws c) /\ distinct_stems (cut_ws ws c) = true /\
+    (ws_acyclic (cut_ws ws c) ->
+     exists d' me, nth_error (cut_ws ws c) a = Some d' /\ fst d' = fst d /\
+       nth_error (e_methods (ent d')) k = Some me /\
+       Forall2 same_tableB (tree_chain ws a mt path) (abs_chain_ws (cut_ws ws c) d' me) /\
+       (find_method (ent d') (me_name me) = Some me ->
+        scope_chain (absws (cut_ws ws c)) (fst d) (Some (me_name me)) = abs_chain_ws (cut_ws ws c) d' me)).
+Proof.
+  intros Hok Hds Hn Hl Hk. destruct (ws_cycle_chain ws a path Hl) as (c & pre & Hq & Hl' & _ & Ht & _).
+  exists c, pre. split; [exact Hq|]. split; [apply ws_ok_cut; exact Hok|]. split; [rewrite distinct_stems_cut; exact Hds|].
+  intro Hac. pose proof (cut_ws_nth ws c a) as Hn'. rewrite Hn in Hn'.
+  set (d' := if Nat.eqb a c then (fst d, cut_tree (snd d)) else d).
+  assert (Hnd : nth_error (cut_ws ws c) a = Some d') by (unfold d'; destruct (Nat.eqb a c); exact Hn').
+  assert (Hfst : fst d' = fst d) by (unfold d'; destruct (Nat.eqb a c); reflexivity).
+  assert (Hmt : method_tables_of false (snd d') = method_tables_of false (snd d)).
+  { unfold d'. destruct (Nat.eqb a c); [|reflexivity]. cbn [snd]. unfold method_tables_of. rewrite annotate_cut. reflexivity. }
+  assert (Hk' : nth_error (method_tables_of false (snd d')) k = Some mt) by (rewrite Hmt; exact Hk).
+  assert (Hds' : distinct_stems (cut_ws ws c) = true) by (rewrite distinct_stems_cut; exact Hds).
+  destruct (ws_scope_chain_refines (cut_ws ws c) a d' k mt (ws_ok_cut ws c Hok) Hac Hds' Hnd Hk')
+    as (me & path' & Hme & Hlp & _ & _ & _ & _ & HF & Hsc).
+  rewrite Hl' in Hlp. inversion Hlp; subst path'. exists d', me. split; [exact Hnd|]. split; [exact Hfst|]. split; [exact Hme|].
+  split; [unfold tree_chain in *; rewrite <- (Ht a); exact HF|]. rewrite <- Hfst. exact Hsc.
+Qed.
